@@ -1063,6 +1063,12 @@ func runC08(t *Trace, r *Rng, tier string, _ []string) {
 	if tier == "thorough" {
 		nIdx, nQ = 150, 100
 	}
+	// searchers over a nested mapping, judged against their own Next-only enumeration
+	if tier == "thorough" {
+		c08Nested(t, r.Fork(), 60, 40)
+	} else {
+		c08Nested(t, r.Fork(), 12, 30)
+	}
 	kinds := map[string]int{}
 	advFirst, advPastEnd, advGap := 0, 0, 0
 	for ix := 0; ix < nIdx; ix++ {
